@@ -31,11 +31,15 @@ type ScenParams struct {
 	Kind  string `json:"kind"`
 	Cores []int  `json:"cores,omitempty"`
 	Extra string `json:"extra,omitempty"`
+	AbsSrc bool  `json:"abs_src,omitempty"` // the source files are given with ABSOLUTE paths
 	Cwd   string `json:"cwd,omitempty"` // filled in by the worker: the scratch directory of the executions
 }
 
 func (sp ScenParams) String() string {
 	s := fmt.Sprintf("%s/items=%d/buf=%d/max=%d/%s", sp.Graph, sp.Items, sp.Buf, sp.Max, sp.Kind)
+	if sp.AbsSrc {
+		s += "/absolute-sources"
+	}
 	if len(sp.Cores) > 0 {
 		s += fmt.Sprintf("/cores=%v", sp.Cores)
 	}
